@@ -15,7 +15,7 @@ theorem Inv.wCons {s : State} (hI : Inv s) {h f v n ver : Nat} (hp : s.pc (.fr h
     have := (hI.preOk b n hb).2.2.2.1
     rw [hfo.2.1] at this; cases this
   obtain ⟨kindC, kindF, lockOk, frWait, freshOk, freshUniq, freshVer, freshVerT, freshNode, wFreeTaken, preOk, postOk, ownOk, rsmTaken,
-    freeTaken, pubNode, waiting, parked, listOk, scanOk, prevOk, placed, oScanOk, oNoneOk, aUnlockOk, aNextOk, aResumeOk, aFreeOk,
+    freeTaken, pubNode, waiting, parked, listOk, scanOk, prevOk, placed, freshHolder, scanL0, unlockL0, oScanOk, oNoneOk, aUnlockOk, aNextOk, aResumeOk, aFreeOk,
     noRead, cTakeOk, cRemoveOk, allocUsed, noBad⟩ := hI
   have hmem : ∀ g m, MemOk s g m → m ≠ n →
       MemOk (({ s with node := upd s.node n { prev := .null, next := none, fut := f, ver := ver, h := h } }).setPc (.fr h) (.wLock f v n ver)) g m := by
@@ -24,24 +24,24 @@ theorem Inv.wCons {s : State} (hI : Inv s) {h f v n ver : Nat} (hp : s.pc (.fr h
     inv_simp
     grind [updA, upd]
   constructor
-  case kindC => first | (inv_auto; done) | (trace "FAIL kindC"; sorry)
-  case kindF => first | (inv_auto; done) | (trace "FAIL kindF"; sorry)
-  case lockOk => first | (inv_auto; done) | (trace "FAIL lockOk"; sorry)
-  case frWait => first | (inv_auto; done) | (trace "FAIL frWait"; sorry)
-  case freshOk => first | (inv_auto; done) | (trace "FAIL freshOk"; sorry)
-  case freshUniq => first | (inv_auto; done) | (trace "FAIL freshUniq"; sorry)
-  case freshVer => first | (inv_auto; done) | (trace "FAIL freshVer"; sorry)
-  case freshVerT => first | (inv_auto; done) | (trace "FAIL freshVerT"; sorry)
-  case freshNode => first | (inv_auto; done) | (trace "FAIL freshNode"; sorry)
-  case wFreeTaken => first | (inv_auto; done) | (trace "FAIL wFreeTaken"; sorry)
-  case preOk => first | (inv_auto; done) | (trace "FAIL preOk"; sorry)
-  case postOk => first | (inv_auto; done) | (trace "FAIL postOk"; sorry)
-  case ownOk => first | (inv_auto; done) | (trace "FAIL ownOk"; sorry)
-  case rsmTaken => first | (inv_auto; done) | (trace "FAIL rsmTaken"; sorry)
-  case freeTaken => first | (inv_auto; done) | (trace "FAIL freeTaken"; sorry)
-  case pubNode => first | (inv_auto; done) | (trace "FAIL pubNode"; sorry)
-  case waiting => first | (inv_auto; done) | (trace "FAIL waiting"; sorry)
-  case parked => first | (inv_auto; done) | (trace "FAIL parked"; sorry)
+  case kindC => inv_auto
+  case kindF => inv_auto
+  case lockOk => inv_auto
+  case frWait => inv_auto
+  case freshOk => inv_auto
+  case freshUniq => inv_auto
+  case freshVer => inv_auto
+  case freshVerT => inv_auto
+  case freshNode => inv_auto
+  case wFreeTaken => inv_auto
+  case preOk => inv_auto
+  case postOk => inv_auto
+  case ownOk => inv_auto
+  case rsmTaken => inv_auto
+  case freeTaken => inv_auto
+  case pubNode => inv_auto
+  case waiting => inv_auto
+  case parked => inv_auto
   case listOk =>
     intro g
     obtain ⟨c1, c2, c3⟩ := listOk g
@@ -78,9 +78,12 @@ theorem Inv.wCons {s : State} (hI : Inv s) {h f v n ver : Nat} (hp : s.pc (.fr h
       inv_simp
       simp only [upd_other _ _ hmn]
       grind [updA, upd, Pc.pend, Pc.locks]
-  case placed => first | (inv_auto; done) | (trace "FAIL placed"; sorry)
-  case oScanOk => first | (inv_auto; done) | (trace "FAIL oScanOk"; sorry)
-  case oNoneOk => first | (inv_auto; done) | (trace "FAIL oNoneOk"; sorry)
+  case placed => inv_auto
+  case freshHolder => inv_auto
+  case scanL0 => inv_auto
+  case unlockL0 => inv_auto
+  case oScanOk => inv_auto
+  case oNoneOk => inv_auto
   case aUnlockOk =>
     intro b g hd took skip l0 hb
     have hb' : s.pc b = .aUnlock g hd took skip l0 := by revert hb; inv_simp; grind [updA]
@@ -105,10 +108,10 @@ theorem Inv.wCons {s : State} (hI : Inv s) {h f v n ver : Nat} (hp : s.pc (.fr h
     obtain ⟨h1, h2, h3, h4, h5⟩ := aFreeOk b m nx k took rs hb'
     have hnt' : n ∉ took.drop (k + 1) := fun e => hnpre b (by simp [hb', Pc.pre, h1, e])
     exact ⟨h1, h2, NChain.upd_notin hnt' h3, h4, h5⟩
-  case noRead => first | (inv_auto; done) | (trace "FAIL noRead"; sorry)
-  case cTakeOk => first | (inv_auto; done) | (trace "FAIL cTakeOk"; sorry)
-  case cRemoveOk => first | (inv_auto; done) | (trace "FAIL cRemoveOk"; sorry)
-  case allocUsed => first | (inv_auto; done) | (trace "FAIL allocUsed"; sorry)
-  case noBad => first | (inv_auto; done) | (trace "FAIL noBad"; sorry)
+  case noRead => inv_auto
+  case cTakeOk => inv_auto
+  case cRemoveOk => inv_auto
+  case allocUsed => inv_auto
+  case noBad => inv_auto
 
 end Babylon.Coro
